@@ -159,12 +159,30 @@ impl<'a> Context<'a> {
             return Ok(cached.clone());
         }
         let element = match self.as_of {
-            Some(seq) => self.store.element_at(&self.space, id, seq).await?,
+            Some(seq) => match self.store.element_at(&self.space, id, seq).await? {
+                Some(element) if self.readable_now(id).await => Some(element),
+                _ => None,
+            },
             None => self.store.get_element(id).await.ok(),
         };
         let element = self.admit(element);
         self.loaded.insert(id, element.clone());
         Ok(element)
+    }
+
+    /// Whether the element, as it is governed *now*, may be read by this caller.
+    ///
+    /// A past coordinate is not a way around the present's authorization: the
+    /// read is happening now. An element that has since been raised above the
+    /// caller's ceiling (or moved out of its scope) is outside the query
+    /// universe at every coordinate, whatever its block said back then. The
+    /// historical row is still what [`Context::admit`] redacts and renders.
+    async fn readable_now(&self, id: ElementId) -> bool {
+        match self.store.get_element(id).await {
+            Ok(present) => self.authority.may_read(&present, self.auth).is_some(),
+            // Nothing present to protect: the past is all there is.
+            Err(_) => true,
+        }
     }
 
     /// Applies the read decision to one loaded element, caching its view.
@@ -290,6 +308,10 @@ impl<'a> Context<'a> {
             let mut ids = Vec::with_capacity(elements.len());
             for element in elements {
                 let id = element.id();
+                if !self.readable_now(id).await {
+                    self.loaded.insert(id, None);
+                    continue;
+                }
                 // Seed the cache: the historical row was just read, and
                 // re-reading it through `load` would answer from the present.
                 // It still goes through `admit`, because a past coordinate is
